@@ -11,7 +11,7 @@ def run(ctx):
     npage = 300 if q else 6000
     nidx = 1800 if q else 40000   # bodies fed to each real reader (every truncation point of ~8 / ~120 indexes + raw bodies)
 
-    nconf = 2 if q else 40    # sweep configurations; each is run once per request of a sweep (~25-45 runs)
+    nconf = 6 if q else 60    # sweep configurations; each is run 2-3 times per request of a sweep (~25-45 requests)
 
     replace = dict(kv.split("=", 1) for kv in os.environ.get("VERIF_C06_REPLACE", "").split(",") if "=" in kv) or None
 
